@@ -322,8 +322,7 @@ theorem header_lookup_case_insensitive (k k' v : Bytes) (d : Hdrs) :
     by_cases h0 : lower k0 = lower k
     · by_cases h1 : lower k = lower k'
       · simp [ciSet, ciGet, h0, h1]
-      · have : ¬ lower k0 = lower k' := fun e => h1 (h0 ▸ e)
-        simp [ciSet, ciGet, h0, h1, this]
+      · simp [ciSet, ciGet, h0, h1]
     · by_cases h2 : lower k0 = lower k'
       · have : ¬ lower k = lower k' := fun e => h0 (h2.trans e.symm)
         have this' : ¬ lower k' = lower k := fun e => this e.symm
